@@ -22,6 +22,7 @@ package vsched
 
 import (
 	"fmt"
+	"reflect"
 	"runtime"
 	"sync"
 	"time"
@@ -40,11 +41,12 @@ const (
 	OpDone            // thread finished (never enabled)
 	OpRLock           // enabled iff the rwmutex has no writer in the model
 	OpWLock           // enabled iff the rwmutex has neither writer nor readers in the model
+	OpSelect          // a receive-only select: one transition per ready case (item buffered / closed / parked sender)
 )
 
 //go:norace
 func (o Op) String() string {
-	return [...]string{"start", "yield", "lock", "send", "recv", "close", "done", "rlock", "wlock"}[o]
+	return [...]string{"start", "yield", "lock", "send", "recv", "close", "done", "rlock", "wlock", "select"}[o]
 }
 
 // Thread is one goroutine under the scheduler.
@@ -57,6 +59,10 @@ type Thread struct {
 	parked bool
 	done   bool
 	Panic  any // value the thread body panicked with (nil if none)
+
+	sel       []any // OpSelect: the channel of every case in canonical form (nil = never ready)
+	selChoice int   // the case the explorer fired
+	selRdv    bool  // the fired case is an unbuffered rendezvous (post-operation gate needed)
 }
 
 // Transition is one enabled step: a thread, plus its partner for an
@@ -64,12 +70,16 @@ type Thread struct {
 type Transition struct {
 	T       *Thread
 	Partner *Thread
+	Case    int // OpSelect without partner: the ready case that fires
 }
 
 //go:norace
 func (tr Transition) String() string {
 	if tr.Partner != nil {
 		return fmt.Sprintf("t%d:%s<->t%d", tr.T.ID, tr.T.op, tr.Partner.ID)
+	}
+	if tr.T.op == OpSelect {
+		return fmt.Sprintf("t%d:select#%d", tr.T.ID, tr.Case)
 	}
 	return fmt.Sprintf("t%d:%s", tr.T.ID, tr.T.op)
 }
@@ -306,6 +316,47 @@ func (s *Sched) addReader(m any, d int) {
 
 //go:norace
 func (s *Sched) enabled(t *Thread) (ok bool, partners []*Thread) {
+	ok, partners, _ = s.enabledCases(t)
+	return
+}
+
+// selIndex: the first case of a thread parked at a select that receives from c (-1 = none).
+//go:norace
+func (t *Thread) selIndex(c any) int {
+	if t.op != OpSelect {
+		return -1
+	}
+	for i, sc := range t.sel {
+		if sc != nil && sc == c {
+			return i
+		}
+	}
+	return -1
+}
+
+//go:norace
+func (s *Sched) enabledCases(t *Thread) (ok bool, partners []*Thread, cases []int) {
+	if !t.parked || t.done {
+		return false, nil, nil
+	}
+	if t.op == OpSelect {
+		for i, c := range t.sel {
+			if c == nil {
+				continue
+			}
+			if cr := s.chanRec(c); cr != nil && (0 < cr.info.Len() || cr.closed) {
+				cases = append(cases, i)
+			}
+			// an unbuffered case with a parked sender is listed from the sender's side
+		}
+		return 0 < len(cases), nil, cases
+	}
+	ok, partners = s.enabledPlain(t)
+	return ok, partners, nil
+}
+
+//go:norace
+func (s *Sched) enabledPlain(t *Thread) (ok bool, partners []*Thread) {
 	if !t.parked || t.done {
 		return false, nil
 	}
@@ -327,7 +378,7 @@ func (s *Sched) enabled(t *Thread) (ok bool, partners []*Thread) {
 			return cr.info.Len() < cr.info.Cap(), nil
 		}
 		for _, o := range s.threads {
-			if o != t && o.parked && !o.done && o.op == OpRecv && o.obj == t.obj {
+			if o != t && o.parked && !o.done && ((o.op == OpRecv && o.obj == t.obj) || 0 <= o.selIndex(t.obj)) {
 				partners = append(partners, o)
 			}
 		}
@@ -370,7 +421,7 @@ func (s *Sched) Run(main func()) {
 				if !t.done {
 					allDone = false
 				}
-				ok, partners := s.enabled(t)
+				ok, partners, cases := s.enabledCases(t)
 				if !ok {
 					continue
 				}
@@ -380,6 +431,10 @@ func (s *Sched) Run(main func()) {
 				if 0 < len(partners) {
 					for _, p := range partners {
 						enabled = append(enabled, Transition{T: t, Partner: p})
+					}
+				} else if 0 < len(cases) {
+					for _, c := range cases {
+						enabled = append(enabled, Transition{T: t, Case: c})
 					}
 				} else {
 					enabled = append(enabled, Transition{T: t})
@@ -427,9 +482,15 @@ func (s *Sched) Run(main func()) {
 		case OpRLock:
 			s.addReader(tr.T.obj, 1)
 		}
+		if tr.T.op == OpSelect {
+			tr.T.selChoice, tr.T.selRdv = tr.Case, false
+		}
 		tr.T.parked = false
 		wait := 1
 		if tr.Partner != nil {
+			if i := tr.Partner.selIndex(tr.T.obj); 0 <= i {
+				tr.Partner.selChoice, tr.Partner.selRdv = i, true
+			}
 			tr.Partner.parked = false
 			wait = 2
 		}
@@ -639,6 +700,62 @@ func Recv2[C ~chan T, T any](c C) (T, bool) {
 		post(s, t) // post-rendezvous gate
 	}
 	return v, ok
+}
+
+type reflectView struct{ v reflect.Value }
+
+func (v reflectView) Len() int { return v.v.Len() }
+func (v reflectView) Cap() int { return v.v.Cap() }
+
+// canonChan: the channel as the value Send/Recv register (unnamed bidirectional chan type), or nil
+// for a nil channel and for kinds the scheduler does not control (receive-only time channels).
+//go:norace
+func canonChan(c any) (any, chanInfo) {
+	v := reflect.ValueOf(c)
+	if !v.IsValid() || v.Kind() != reflect.Chan || v.IsNil() || v.Type().ChanDir() != reflect.BothDir {
+		return nil, nil
+	}
+	cv := v.Convert(reflect.ChanOf(reflect.BothDir, v.Type().Elem()))
+	return cv.Interface(), reflectView{cv}
+}
+
+// Select stands in front of a select statement whose clauses are all receives (the instrumenter
+// turns `select { case v = <-c0: A  case v = <-c1: B }` into `switch vsched.Select(c0, c1) { case 0:
+// v = <-c0; vsched.SelectDone(); A ... default: <the original select> }`). It parks the thread until
+// the explorer fires one ready case and returns its index; the real receive that follows cannot
+// block. -1: the goroutine is not under a scheduler.
+//go:norace
+func Select(chans ...any) int {
+	s, t := current()
+	if s == nil {
+		return -1
+	}
+	sel := make([]any, len(chans))
+	for i, c := range chans {
+		cc, info := canonChan(c)
+		if cc != nil {
+			regChan(s, cc, info)
+			sel[i] = cc
+		}
+	}
+	t.sel = sel
+	s.point(t, OpSelect, nil)
+	t.sel = nil
+	return t.selChoice
+}
+
+// SelectDone follows the real receive of the fired case: the post-rendezvous gate of an unbuffered
+// hand-over (the sender parks at its own).
+//go:norace
+func SelectDone() {
+	s, t := current()
+	if s == nil {
+		return
+	}
+	if t.selRdv {
+		t.selRdv = false
+		post(s, t)
+	}
 }
 
 // Close replaces close(c).
